@@ -409,7 +409,7 @@ pub fn run_case(case: &SimCase) -> SimRun {
         if enabled.is_empty() {
             // Only the final join of the actor tasks (cross-thread wake-up of the async-std
             // JoinHandles) can be outstanding. Give it a bounded amount of real time.
-            let deadline = std::time::Instant::now() + std::time::Duration::from_secs(10);
+            let deadline = std::time::Instant::now() + std::time::Duration::from_secs(2);
             let mut ok = false;
             while std::time::Instant::now() < deadline {
                 pool.run_until_stalled();
